@@ -48,6 +48,18 @@ CHECKS = {
    technique="enumeration of path-item configurations (compiled): method subsets × header-parameter variants × security variants × explicit OPTIONS × second path × cors on/off; oracle = set equality of the arguments received by the CORS handler constructor with the model",
    text="Every configuration of a path item /a/b (method subset, header parameters at operation / path-item level / two casings / two distinct / component $ref, security none / global bearer / per-operation apiKey header / both / bearer with a public override, explicit OPTIONS or not) next to a second path (/q or the variable sibling /a/{x}, with or without its own OPTIONS), cors on and off, is generated and compiled (900 quick, all 15 method subsets thorough). OPTIONS is sent to each declared and to undeclared paths with the CORS handler set and nil: the constructor must be called once with exactly the declared methods and the canonical de-duplicated header set of the model; a declared OPTIONS operation is never shadowed; nil handler or cors off means not found.",
    note="order of methods/headers is not compared (sets, duplicates are violations); with cors off a sibling template that declares OPTIONS may take the request (C03 don't-care)"),
+ "C06": dict(engine="batch+drv", ref="§4 C06",
+   technique="enumeration of component schemas (compiled) × exhaustive value-space exploration of the generated Go type by reflection over small leaf domains; oracle = valid JSON, decodes, equal value",
+   text="Every schema state (kind × {component, property, items, additionalProperties value, oneOf member, allOf member} × required × nullable × inline/$ref/alias; three-property objects over all 64 required/nullable combinations; every ordered pair and triple of four allOf member shapes; five oneOf shapes; eight nesting shapes) is generated and compiled; the values of the generated Go type are enumerated from the type itself (booleans, boundary integers and floats, strings needing escapes, zoned times, unset/null wrappers, nil/empty/1/2-element slices, maps with awkward keys, each oneOf variant; full product up to 2000 values, otherwise everything within two moves of two bases plus single-field sweeps). Each value is encoded, the output must be valid JSON, decode, and equal the value (times as instants, nil≡empty, raw JSON as JSON values).",
+   note="values of a discriminated oneOf are restricted to those whose discriminator selects the chosen variant; for undiscriminated oneOf a document valid for an earlier variant may come back as that variant; 222+ states of the pinned tree do not compile (C01 findings) and are masked"),
+ "C07": dict(engine="batch+drv", ref="§4 C07",
+   technique="same states and values as C06; oracle independent of goag: clause-by-clause conformance walker over (source schema, Go value, produced JSON) plus kin-openapi's schema visitor; applied to Marshal output, handler-written response bodies and client-sent request bodies",
+   text="For every state and value of C06 (plus variants of each state with a request-body and a response operation and the generated client) the produced JSON is walked against the SOURCE schema and the Go value: required properties present, unset optionals omitted, null only where nullable, names exactly the declared names, JSON types and date-time format, allOf members merged into one object, map entries under their own keys, no undeclared key. Documents the walker accepts are additionally validated by kin-openapi's VisitJSON. The same walker judges every response body written through API.ServeHTTP and every request body the generated client puts on the wire.",
+   note="kin-openapi verdicts about string formats other than date-time, oneOf multiplicity and null for the empty schema are ignored (its quirks); the walker pairs Go fields with properties by normalised name"),
+ "C08": dict(engine="batch+drv", ref="§4 C08",
+   technique="same schema states; documents generated FROM the schema by an independent generator (all optional subsets, null where allowed, leaf spellings, extra keys, key-order permutations, oneOf variants) and all single-fault mutants; decoded directly and as request bodies",
+   text="For every schema state the reference generator enumerates valid documents (every subset of optional properties up to 4 optionals, null at every nullable site, boundary and escaped leaf spellings, additional properties where allowed incl. awkward keys, every key order up to 4 keys, each oneOf variant, allOf member variations) and their single-fault mutants (each required key dropped; each declared property replaced by a token of each other JSON type), at every nesting level. Valid documents must decode and re-encode to an equal JSON value; faults must be rejected with an error naming the property. The same documents are posted to an operation whose body is the schema and Parse() must agree.",
+   note="extra keys where the schema does not allow them, fractional numbers into integers and malformed format text are don't-cares and not generated; documents come from the spec view, never from goag's encoder"),
 }
 NA_REASON = "check not built yet (work in progress; see DESIGN.md §13)"
 def main():
